@@ -738,6 +738,53 @@ def generate(seed, index):
             clients[c] = out
     if n_observed:
         kinds["observed"] = n_observed
+    # F12 / F15 as predecessors: an evaluation (of a twin object carrying the same chain) or a scan of
+    # the same request is cut short right before the real one - cancelled at a seeded line inside the
+    # library, or failed by an I/O error (diagram file / k-th listing / k-th file).  The interrupted
+    # request itself is never judged; what comes after it on the same evaluable is judged as always.
+    # Own PRNG stream: the chains stay as they are.
+    xrng = random.Random(f"{seed}:C13:{index}:interrupt")
+    n_interrupted = 0
+    if not sweep and xrng.random() < 0.3:
+        def _cut(is_diagram, is_scan):
+            if is_scan:
+                if xrng.random() < 0.5:
+                    return {"abort_at": int(round(10 ** (xrng.random() * 4.3)))}
+                return {"io_fault": {"kind": xrng.choice(["listdir", "open"]),
+                                     "at": int(round(10 ** (xrng.random() * 1.3))),
+                                     "err": xrng.choice(["EIO", "EACCES", "EMFILE"])}}
+            if is_diagram and xrng.random() < 0.5:
+                return {"io_fault": {"kind": "open", "at": 1, "err": xrng.choice(["EIO", "EACCES"])}}
+            return {"abort_at": int(round(10 ** (xrng.random() * 3.6)))}
+
+        new_setup = []
+        for op in setup:
+            if op["op"] == "scan" and xrng.random() < 0.3:
+                new_setup.append({"op": "scan", "ev": "I" + op["ev"], "cfg": op["cfg"],
+                                  **({"order": op["order"]} if op.get("order") else {}), **_cut(False, True)})
+                n_interrupted += 1
+            new_setup.append(op)
+        setup = new_setup
+        for c in range(nclients):
+            out, built, cls_of = [], {}, {}
+            for op in clients[c]:
+                if op["op"] == "new":
+                    built[op["obj"]] = [op]
+                    cls_of[op["obj"]] = op["cls"]
+                elif op["op"] == "call" and op["obj"] in built:
+                    built[op["obj"]].append(op)
+                elif (op["op"] == "apply" and op["obj"] in built and "abort_at" not in op
+                      and xrng.random() < 0.3):
+                    twin = op["obj"] + "i"
+                    for b in built[op["obj"]]:
+                        out.append(dict(b, obj=twin))
+                    out.append({"op": "apply", "obj": twin, "ev": op["ev"],
+                                **_cut(cls_of[op["obj"]] == "DiagramRule", False)})
+                    n_interrupted += 1
+                out.append(op)
+            clients[c] = out
+    if n_interrupted:
+        kinds["interrupted_predecessor"] = n_interrupted
     clients[0] = setup + clients[0]
     schedule = [0] * len(setup)
     rest = []
